@@ -507,3 +507,46 @@ example (u : ℚ) (hu : 0 ≤ u) : StdModel u (fun x => x * (1 + u)) :=
     rw [this, abs_mul, abs_of_nonneg hu]⟩
 
 end Covfie.C03
+
+/-! ### consequences: the hull up to rounding, and exactness at lattice points under rounding -/
+namespace Covfie.C03
+
+/-- "never leaves the range spanned by the surrounding lattice values by more than rounding": any evaluation within `B`
+    of the interpolant lies within `B` of the hull of the corner values -/
+theorem hull_round (as : List ℚ) (v : List Bool → ℚ) (lo hi r B : ℚ)
+    (ha : ∀ a ∈ as, 0 ≤ a ∧ a ≤ 1) (hv : ∀ bs, lo ≤ v bs ∧ v bs ≤ hi) (hr : |r - nlin as v| ≤ B) :
+    lo - B ≤ r ∧ r ≤ hi + B := by
+  obtain ⟨h1, h2⟩ := nlin_hull as v lo hi ha hv
+  have := abs_le.mp hr
+  constructor <;> linarith
+
+theorem rnd_zero (u : ℚ) (rnd : ℚ → ℚ) (h : StdModel u rnd) : rnd 0 = 0 := by
+  have := h.2 0
+  simp at this
+  exact this
+
+/-- at a lattice point the rounded 1-D / 2-D / 3-D branch returns the stored value **exactly**, whatever the rounding does
+    to inexact results (it only has to leave 1 and the stored corner value unchanged) -/
+theorem lin1_lattice_round (u : ℚ) (rnd : ℚ → ℚ) (h : StdModel u rnd) (h1 : rnd 1 = 1) (v : List Bool → ℚ)
+    (hv : rnd (v [false]) = v [false]) : (lin1 (⟨0⟩ : Fl rnd) (inj rnd v)).val = v [false] := by
+  have h0 := rnd_zero u rnd h
+  show rnd (rnd (rnd (1 - 0) * v [false]) + rnd (0 * v [true])) = v [false]
+  simp [h0, h1, hv]
+
+theorem lin2_lattice_round (u : ℚ) (rnd : ℚ → ℚ) (h : StdModel u rnd) (h1 : rnd 1 = 1) (v : List Bool → ℚ)
+    (hv : rnd (v [false, false]) = v [false, false]) :
+    (lin2 (⟨0⟩ : Fl rnd) ⟨0⟩ (inj rnd v)).val = v [false, false] := by
+  have h0 := rnd_zero u rnd h
+  show rnd (rnd (rnd (rnd (rnd (rnd (1 - 0) * rnd (1 - 0)) * v [false, false]) + rnd (rnd (rnd (1 - 0) * 0) * v [false, true])) +
+      rnd (rnd (0 * rnd (1 - 0)) * v [true, false])) + rnd (rnd (0 * 0) * v [true, true])) = v [false, false]
+  simp [h0, h1, hv]
+
+theorem lin3_lattice_round (u : ℚ) (rnd : ℚ → ℚ) (h : StdModel u rnd) (h1 : rnd 1 = 1) (v : List Bool → ℚ)
+    (hv : rnd (v [false, false, false]) = v [false, false, false]) :
+    (lin3 (⟨0⟩ : Fl rnd) ⟨0⟩ ⟨0⟩ (inj rnd v)).val = v [false, false, false] := by
+  have h0 := rnd_zero u rnd h
+  have e : (lin3 (⟨0⟩ : Fl rnd) ⟨0⟩ ⟨0⟩ (inj rnd v)).val = (ex3 0 0 0 v).fl rnd := rfl
+  rw [e]
+  simp [ex3, Ex.fl, h0, h1, hv]
+
+end Covfie.C03
